@@ -116,7 +116,7 @@ def run(ctx):
 
     per_req = m.per_request_fields()
     ctx.count('engine_methods', len(m.methods), 45)
-    ctx.count('per_request_fields', len(per_req), 6)
+    ctx.count('per_request_fields', len(per_req), 3)
     te = transitive_effects(m)
 
     # ---- R1
